@@ -149,6 +149,8 @@ class Executor:
             return r
         if v is None:
             return None
+        if isinstance(v, Exception):
+            self.fail(path, nodes)  # an exception instance as a value (field result or list item) is a failure there
         if t[0] == "list":
             if not isinstance(v, list):
                 self.fail(path, nodes)
